@@ -36,6 +36,35 @@ pub enum Extractor {
     Json,
     Form,
     ToBytesLimited,
+    /// `MultipartForm<T>` with one in-memory `form::bytes::Bytes` field; `limit` is both the
+    /// total and the memory limit of `MultipartFormConfig`
+    MpBytes,
+    /// the same with a `form::text::Text<String>` field
+    MpText,
+}
+
+const MP_BOUNDARY: &str = "XsimBoundaryX";
+
+fn is_mp(e: Extractor) -> bool {
+    matches!(e, Extractor::MpBytes | Extractor::MpText)
+}
+
+/// multipart/form-data envelope around one field named `f`
+fn mp_envelope(content: &[u8]) -> Vec<u8> {
+    let mut w = format!("--{}\r\ncontent-disposition: form-data; name=\"f\"\r\n\r\n", MP_BOUNDARY).into_bytes();
+    w.extend_from_slice(content);
+    w.extend_from_slice(format!("\r\n--{}--\r\n", MP_BOUNDARY).as_bytes());
+    w
+}
+
+#[derive(actix_multipart::form::MultipartForm)]
+struct MpFormBytes {
+    f: actix_multipart::form::bytes::Bytes,
+}
+
+#[derive(actix_multipart::form::MultipartForm)]
+struct MpFormText {
+    f: actix_multipart::form::text::Text<String>,
 }
 
 #[derive(Clone, Copy, Debug, Serialize, Deserialize, PartialEq, Eq)]
@@ -220,7 +249,7 @@ struct OneRun {
 
 fn run_once(sc: &ExScenario, trivial_schedule: bool) -> OneRun {
     let decoded = decoded_body(sc);
-    let mut wire = encode(sc.coding, &decoded);
+    let mut wire = if is_mp(sc.extractor) { mp_envelope(&decoded) } else { encode(sc.coding, &decoded) };
     if let Some(t) = sc.truncate_wire {
         wire.truncate(t.min(wire.len()));
     }
@@ -278,6 +307,11 @@ fn run_once(sc: &ExScenario, trivial_schedule: bool) -> OneRun {
             Extractor::Form => tr = tr.insert_header(("content-type", "application/x-www-form-urlencoded")).app_data(FormConfig::default().limit(sc.limit)),
             Extractor::Bytes | Extractor::String => tr = tr.insert_header(("content-type", "text/plain")).app_data(PayloadConfig::new(sc.limit)),
             Extractor::ToBytesLimited => {}
+            Extractor::MpBytes | Extractor::MpText => {
+                tr = tr
+                    .insert_header(("content-type", format!("multipart/form-data; boundary={}", MP_BOUNDARY)))
+                    .app_data(actix_multipart::form::MultipartFormConfig::default().total_limit(sc.limit).memory_limit(sc.limit))
+            }
         }
         let req = tr.to_http_request();
         let boxed: Pin<Box<dyn Stream<Item = Result<Bytes, PayloadError>>>> = Box::pin(ScriptStream(st2.clone()));
@@ -326,6 +360,24 @@ fn run_once(sc: &ExScenario, trivial_schedule: bool) -> OneRun {
                             }
                             Outcome::Ok(o)
                         }
+                        Err(e) => classify(&format!("{:?}", e)),
+                    });
+                })
+            }
+            Extractor::MpBytes => {
+                let f = actix_multipart::form::MultipartForm::<MpFormBytes>::from_request(&req, &mut pl);
+                Box::pin(async move {
+                    *r2.borrow_mut() = Some(match f.await {
+                        Ok(v) => Outcome::Ok(v.into_inner().f.data.to_vec()),
+                        Err(e) => classify(&format!("{:?}", e)),
+                    });
+                })
+            }
+            Extractor::MpText => {
+                let f = actix_multipart::form::MultipartForm::<MpFormText>::from_request(&req, &mut pl);
+                Box::pin(async move {
+                    *r2.borrow_mut() = Some(match f.await {
+                        Ok(v) => Outcome::Ok(v.into_inner().f.into_inner().into_bytes()),
                         Err(e) => classify(&format!("{:?}", e)),
                     });
                 })
@@ -419,7 +471,7 @@ impl Rig for ExRig {
         }
     }
     fn gen(&self, rng: &mut Rng, idx: u64, _tier: Tier) -> ExScenario {
-        let extractor = *rng.pick(&[Extractor::Bytes, Extractor::String, Extractor::Json, Extractor::Form, Extractor::ToBytesLimited]);
+        let extractor = *rng.pick(&[Extractor::Bytes, Extractor::String, Extractor::Json, Extractor::Form, Extractor::ToBytesLimited, Extractor::MpBytes, Extractor::MpText]);
         let limit = *rng.pick(LIMITS);
         let big = idx % 16 == 0;
         let len = if big {
@@ -470,6 +522,15 @@ impl Rig for ExRig {
             }
             _ => {}
         }
+        if is_mp(sc.extractor) {
+            // the multipart extractor takes the payload as it is (no content decoding) and does
+            // not look at Content-Length
+            sc.coding = Coding::Identity;
+            sc.truncate_wire = None;
+            if matches!(sc.declared, DeclaredLen::Smaller | DeclaredLen::Larger) {
+                sc.declared = DeclaredLen::Absent;
+            }
+        }
         sc
     }
 
@@ -500,7 +561,7 @@ impl Rig for ExRig {
         for (which, r) in [("scheduled", &a), ("single-chunk", &b)] {
             match &r.outcome {
                 Outcome::Ok(v) => {
-                    let raw_value = matches!(sc.extractor, Extractor::Bytes | Extractor::String | Extractor::ToBytesLimited);
+                    let raw_value = matches!(sc.extractor, Extractor::Bytes | Extractor::String | Extractor::ToBytesLimited | Extractor::MpBytes | Extractor::MpText);
                     if (raw_value && v.len() > sc.limit) || (!raw_value && !fault && n > sc.limit) {
                         vs.push(Violation::new(
                             "C12.ok-implies-within",
